@@ -550,7 +550,19 @@ def r065_losses(ctx):
     roles["e"] = A.ev.eval_src("y - h", roles, module=M_ER)
     specs = [A.ev.eval_src(v, roles, module=M_ER) for v in variants]
     A.formula("R06.5", r.func, None, r.ret, specs, "cost-weighted error", construct="ErrorRate.gamma formula")
-
+    # the clipping range used by eval is the constructor's (min_val, max_val); ZeroOneLoss is AbsoluteLoss(0, 1)
+    Ac = Analysis(ctx, max_depth=2)
+    for name in ("SquareLoss", "AbsoluteLoss"):
+        c_ = f"{M_BGL}:{name}"
+        ri = Ac.run(c_ + ".__init__", cls_ctx=c_)
+        h = ri.final.heap if ri.final else {}
+        ok = h.get((ri.self_term, "min_val")) is ri.params["min_val"] and h.get((ri.self_term, "max_val")) is ri.params["max_val"]
+        ctx.ob("R06.5", ri.func, None, ok, f"{name} keeps (min_val, max_val) as given", construct=f"{name} clipping range")
+    c_ = f"{M_BGL}:ZeroOneLoss"
+    rz = Ac.run(c_ + ".__init__", cls_ctx=c_)
+    h = rz.final.heap if rz.final else {}
+    ok = h.get((rz.self_term, "min_val")) is const(0) and h.get((rz.self_term, "max_val")) is const(1)
+    ctx.ob("R06.5", rz.func, None, ok, "ZeroOneLoss clips to [0, 1]", construct="ZeroOneLoss range")
 
 def r066_loss_moment_wiring(ctx):
     ctx.rule("R06.6", "ConditionalLossMoment: bound() = upper_bound on the group index (raises when unset); with no_groups every "
